@@ -161,6 +161,10 @@ type PT struct{ A int }
 // @packageonly zz
 func PF() int { return 0 }
 
+// PT2 is restricted; the using package mentions it exactly once per file.
+// @packageonly zz
+type PT2 struct{ A int }
+
 // PM is restricted.
 // @packageonly zz
 func (s S) PM() {}
@@ -267,6 +271,7 @@ func f1(x d.T, p *d.T, s d.S, y int) {
 	s.PM()`)
 	lines(ua, `	_ = d.PT{}`, "PKGO01:PT")
 	lines(ua, `	_ = d.Mock{}`, "TONL01:Mock", "PKGO01:Mock")
+	lines(ua, `	_ = d.PT2{}`, "PKGO01:PT2")
 	lines(ua, `	_ = d.Wrap(d.Helper())
 	d.Wrap(
 		d.Helper(),
@@ -384,6 +389,7 @@ func g1(x d.T, s d.S) {
 	s.Reset()`)
 	lines(ub, `	_ = d.Wrap(d.Mock{})`, "TONL01:Mock", "PKGO01:Mock") // the file's first use of Mock sits inside a reported call
 	lines(ub, `	_ = d.PF2(d.PT{})`, "PKGO01:PT")
+	lines(ub, `	_ = d.PT2{}`, "PKGO01:PT2")
 	lines(ub, `	_ = d.Mock{}`, "TONL01:Mock", "PKGO01:Mock")
 	lines(ub, `	var m d.Mock`, "TONL01:Mock", "PKGO01:Mock")
 	lines(ub, `	_ = m
